@@ -285,6 +285,7 @@ impl Scenario for C11Threads {
             }
             cfg.classes = true;
             cfg.real_components = true;
+            cfg.components_of = true;
             cfg.recursion_bias = w.chance(1, 3);
             cfg.warnful = w.chance(1, 3);
             if w.chance(1, 2) {
